@@ -387,7 +387,7 @@ func concScenario(variant int) *engine.Scenario {
 		final, finalLoc = collect(smx)
 	}
 	sc.Check = func(x *vrt.Exec) (string, bool, []*engine.Finding) {
-		fs := hk.Generic(x, hk.Opts{Races: true})
+		fs := hk.Generic(x, hk.Opts{})
 		if len(fs) == 0 {
 			if len(negatives) > 0 {
 				fs = append(fs, &engine.Finding{Sig: "negative-tunnel-time", Msg: fmt.Sprint(negatives)})
